@@ -47,6 +47,7 @@ struct cmb_resourceguard {
     struct cmi_hashheap priority_queue;         /**< The base hashheap class */
     struct cmi_resourcebase *guarded_resource;  /**< The resource it guards */
     struct cmi_slist_head observers;            /**< Any other resource guards observing this one */
+    bool evaluate_all;                          /**< A forwarded signal evaluates every waiter, not just the first (condition variables) */
 };
 
 /**
